@@ -101,6 +101,31 @@ out += ["", "## Missed at first, and what was strengthened", "",
         "* thorough-only → quick: **C03-r3-1** (parallel branch with exactly one wrong denom: new malformation that swaps in an executable branch to",
         "  another denom), **C15-r3-1** (index equal to the shard count: message templates straddle both ends of the list).",
         "* **C01-r3-2** (no-progress counter of the swap loop compares decimals with `==`: an unmetered hang) made the harness wait for the framework's",
-        "  time limit; every suite now has a per-operation watchdog (300 s) that ends the run with a `no_hang` verdict and the history so far."]
+        "  time limit; every suite now has a per-operation watchdog (300 s) that ends the run with a `no_hang` verdict and the history so far.",
+        "",
+        "## Round 4 (`Cnn-r4-k`): unusual parameters, interleavings of several actors, key encodings, statement order",
+        "",
+        "A fourth set of forty (agents told the six earlier changes per property). First evaluation at the quick tier",
+        "(`r4-first-evaluation.log`): 34 of 40 reported, 6 missed. What each miss led to (the table shows the final machinery):",
+        "",
+        "* **C01-r4-1** (a renamed local makes the `slash_fault_threshold >= 0` test look at another parameter; the end-blocker then panics in",
+        "  `Uint64()`), **C13-r4-2** (`IsNegative() && GT(1)` never rejects a staking reward ratio): parameter validation was only sampled. Two",
+        "  answers. (1) Proof: the translator has a new target kind `rejects` (the disjunction of every unconditional `if … { return err }` of a",
+        "  `Validate` function that mentions a parameter); `Props/ParamGuards{DA,LI,Swap,Fee}.lean` prove that passing the regenerated guards is",
+        "  exactly the validity predicate the models and theorems assume — for every value. (2) Failing input: every `da` history opens with a",
+        "  battery of parameter sets that are wrong in ONE field (accepted ones govern the rest of the history), the `mint` suite lets governance",
+        "  change the ratio at run time on both sides of both ends of [0,1] (`C13.history_ratio_and_cap`: ratio in [0,1] and supply ≤ cap are",
+        "  invariants of every interleaving of updates and blocks).",
+        "* **C09-r4-1** (`NewPrefixUntilPairRange` for `NewPrefixedPairRange`: the tally of an item reads and deletes the proofs of every item",
+        "  whose name sorts before it): item names followed the order of publication, so the item tallied first always had the smallest name. Names",
+        "  are now a random permutation, and every third history opens with two items published, challenged and proved side by side.",
+        "* **C13-r4-1** (an empty series from a denom to itself passes `Route.Validate`; the interface fee then moves vRISE between two accounts):",
+        "  new malformation `emptysame` in the `route` suite (C03 reports it as well) and three pool-less routes per banned denom in the `ban` suite.",
+        "* **C15-r4-2** (`||` → `&&` in the first-position guard: `MsgCreatePosition` with base 0 on an empty pool divides by zero): the structured",
+        "  grid over pool states existed for the calculation queries only; `lpMsgSection` runs the same grid of (base, quote) pairs through",
+        "  `MsgCreatePosition` / `MsgIncreaseLiquidity` on a discarded branch of the state, so every point meets the same pool states.",
+        "* **C19-r4-2** (`GetAllPublishedData`, shared by the query and `ExportGenesis`, stops after 1000 items): beyond what a history of practical",
+        "  length shows. The genesis fact extractor now lists every place on the ExportGenesis / InitGenesis call paths where a walk can end early",
+        "  (a walk callback answering stop without an error, a `break` out of a loop); `C19.genesis_paths_never_stop_early` proves the list empty."]
 open(os.path.join(VERIF, "seeded", "README.md"), "w").write("\n".join(out) + "\n")
 print(len(rows), "rows;", sum("**caught**" in r for r in rows), "caught")
